@@ -115,6 +115,33 @@ func upgradeDumpBody(r *Run) {
 				out = append(out, KV{K: []byte("snapshot_\x0a"), V: s0}, KV{K: []byte("snapshot_\x0b"), V: s1})
 			}
 		}
+		if name == "container" && extraAcc > 0 {
+			// extra containers in the dumped (un-prefixed) layout: a copy of a
+			// recorded container under another id, with its owner-index entry
+			var cnr, own *KV
+			for i := range out {
+				if len(out[i].K) == 32 && cnr == nil {
+					cnr = &out[i]
+				}
+			}
+			if cnr != nil {
+				for i := range out {
+					if len(out[i].K) == 57 && bytes.Equal(out[i].K[25:], cnr.K) {
+						own = &out[i]
+					}
+				}
+			}
+			if cnr != nil && own != nil {
+				for i := 0; i < extraAcc; i++ {
+					id := append([]byte{}, cnr.K...)
+					id[0] ^= byte(0x40 + i)
+					id[31] ^= byte(1 + i)
+					out = append(out, KV{K: id, V: cnr.V})
+					ok := append(append([]byte{}, own.K[:25]...), id...)
+					out = append(out, KV{K: ok, V: id})
+				}
+			}
+		}
 		if name == "balance" {
 			for i := 0; i < extraAcc; i++ {
 				acc := DetKey(fmt.Sprintf("dump/acc/%d", i)).GetScriptHash().BytesBE()
